@@ -942,11 +942,12 @@ func cmdReplay(args []string) int {
 
 // ---- trace: run the case of one run seed and print its event log (debugging aid) -------------------
 
-// cmdTrace: verif trace <prop> --run-seed <n> [--lane <key>]. The run seed is the per-run seed printed
+// cmdTrace: verif trace <prop> --run-seed <n> [--lane <key>] [--tier thorough]. The run seed is the per-run seed printed
 // with a violation (seed=...), not the batch seed.
 func cmdTrace(args []string) int {
 	var prop, laneKey string
 	var seed uint64
+	thorough := false
 	for i := 0; i < len(args); i++ {
 		switch args[i] {
 		case "--run-seed":
@@ -955,6 +956,9 @@ func cmdTrace(args []string) int {
 		case "--lane":
 			i++
 			laneKey = args[i]
+		case "--tier":
+			i++
+			thorough = args[i] == "thorough"
 		default:
 			prop = args[i]
 		}
@@ -972,7 +976,7 @@ func cmdTrace(args []string) int {
 		fatal2("%v", err)
 	}
 	defer b.cleanup()
-	rs, err := runWorker(b.bin, map[string]any{"mode": "gen", "property": prop, "seed": seed, "count": 1, "profile": ln.profile, "emit_case": true}, 180*time.Second, "VERIF_FULLTRACE=1")
+	rs, err := runWorker(b.bin, map[string]any{"mode": "gen", "property": prop, "seed": seed, "thorough": thorough, "count": 1, "profile": ln.profile, "emit_case": true}, 600*time.Second, "VERIF_FULLTRACE=1")
 	if err != nil {
 		fatal2("%v", err)
 	}
